@@ -509,7 +509,7 @@ def _insert_nodes(source: str, additions: Collection[ast.AST]) -> str:
     Returns:
         str: Code with added asts.
     """
-    lines = source.splitlines(keepends=True)
+    lines = list(core.splitlines(source))
 
     for node in sorted(additions, key=lambda n: n.lineno, reverse=True):
         addition = core.unparse(node)
